@@ -18,6 +18,7 @@ import (
 	"context"
 	"sync"
 
+	"github.com/B1NARY-GR0UP/originium/pkg/verifhook"
 	"github.com/B1NARY-GR0UP/originium/pkg/watermark"
 )
 
@@ -74,6 +75,7 @@ func (o *oracle) readTs() uint64 {
 	o.Lock()
 	readTs := o.nextTs - 1
 	o.readMark.Begin(readTs)
+	verifhook.At("orc.readts", readTs)
 	o.Unlock()
 
 	// ensure current txn can read the latest value of txn at ts <= readTs
@@ -97,6 +99,7 @@ func (o *oracle) newCommitTs(txn *Txn) (uint64, bool) {
 	ts := o.nextTs
 	o.nextTs++
 	o.commitMark.Begin(ts)
+	verifhook.At("orc.committs", ts, txn.readTs, len(o.committedTxns), o.lastCleanUpTs)
 
 	o.committedTxns = append(o.committedTxns, committedTxn{
 		ts:       ts,
